@@ -1,4 +1,4 @@
-CONSTANT Rate = 1
+CONSTANTS Rate = 1  OpenParse = TRUE
 INIT MCInit
 NEXT MCNext
 INVARIANTS Laws Emit
